@@ -333,6 +333,10 @@ Definition mixed_outcome (forgiving : bool) (k : str) (l : list lelem) : kw_outc
                  end
        end.
 
+(* the same through from_json: a key that is not a field is dropped before _set_fields when the source pre-filters *)
+Definition mixed_outcome_from_json (k : str) (l : list lelem) : kw_outcome :=
+  if from_json_prefilters && negb (mem_str k label_fields) then KW_skipped else mixed_outcome true k l.
+
 (* one keyword whose NAME is an attribute of the object (method, class table) but not a field; value a str *)
 Definition nonfield_attr_outcome (forgiving : bool) : kw_outcome :=
   if label_field_test_is_dict then (if forgiving then KW_skipped else KW_err ELabel) else KW_stored.
@@ -573,12 +577,22 @@ Definition check_misc (m : misc) : bool :=
   | M_caps fg kws r => result_eqb ckvs_eqb (caps_ctor fg kws) r
   end.
 
+(* a Tags object whose list was changed directly (tags.tags.append(x)), a Capacities object whose fields were assigned
+   directly, attached to a sliver / element: BaseSliver.set_tags / set_capacities *)
+Definition attach_tags (revalidates : bool) (l : list tagv) : bool :=        (* true = attached (written into the model) *)
+  if revalidates then match tag_check_all l with Some _ => true | None => false end else true.
+
+Definition attach_caps (revalidates : bool) (st : cobj) : bool :=
+  if revalidates then match snd (cap_set_fields false st st) with None => true | Some _ => false end else true.
+
 (* round 4: non-string list elements, attribute-name keywords, direct assignment then attach *)
 Inductive extra :=
 | X_mixed (entry : N) (k : str) (l : list lelem) (o : kw_outcome)      (* entry 0 ctor, 1 update, 2 from_json *)
 | X_attr (entry : N) (o : kw_outcome)
 | X_caps_attr (forgiving : bool) (o : kw_outcome)
-| X_assign_attach (base : list (str * lval)) (k : str) (v : lval) (wrote : bool).   (* Labels( base ); l.k = v; element.labels = l *)
+| X_assign_attach (base : list (str * lval)) (k : str) (v : lval) (wrote : bool)    (* Labels( base ); l.k = v; element.labels = l *)
+| X_tags_attach (l : list tagv) (wrote : bool)
+| X_caps_attach (st : list (str * cval)) (wrote : bool).
 
 Definition kw_outcome_eqb (a b : kw_outcome) : bool :=
   match a, b with
@@ -589,7 +603,7 @@ Definition kw_outcome_eqb (a b : kw_outcome) : bool :=
 
 Definition check_extra (x : extra) : bool :=
   match x with
-  | X_mixed e k l o => kw_outcome_eqb (mixed_outcome (N.eqb e 2) k l) o
+  | X_mixed e k l o => kw_outcome_eqb (if N.eqb e 2 then mixed_outcome_from_json k l else mixed_outcome false k l) o
   | X_attr e o => kw_outcome_eqb (if N.eqb e 2 then nonfield_attr_outcome_from_json else nonfield_attr_outcome false) o
   | X_caps_attr fg o => kw_outcome_eqb (caps_nonfield_attr_outcome fg) o
   | X_assign_attach base k v wrote =>
@@ -600,6 +614,8 @@ Definition check_extra (x : extra) : bool :=
                  end
       | Err _ => false
       end
+  | X_tags_attach l wrote => Bool.eqb (attach_tags set_tags_revalidates l) wrote
+  | X_caps_attach st wrote => Bool.eqb (attach_caps set_capacities_revalidates st) wrote
   end.
 
 (* the same values arriving through the topology API *)
